@@ -336,7 +336,7 @@ func c01R4(c *Ctx) {
 		}
 	}
 	succ, policyOn := 0, 0
-	n, complete := WalkPaths(fn, PathOpts{}, func(p *Path) bool {
+	n, complete := WalkPathsInl(fn, PathOpts{}, func(p *Path) bool {
 		if errReturnClass(p) == nonNil {
 			return true
 		}
@@ -384,7 +384,7 @@ func c01R4(c *Ctx) {
 					if len(args) < 3 {
 						return true
 					}
-					if leafAlloc == nil || strip(args[1]) != leafAlloc {
+					if leafAlloc == nil || p.Resolve(args[1], i) != leafAlloc {
 						fail("leafarg", "VerifyLeaf is applied to a certificate other than the parsed leaf that is returned", ins, p)
 						return true
 					}
@@ -398,7 +398,7 @@ func c01R4(c *Ctx) {
 				case readFrom:
 					if len(args) >= 1 {
 						errV := errResultOf(x)
-						isLeaf := leafAlloc != nil && strip(args[0]) == leafAlloc
+						isLeaf := leafAlloc != nil && p.Resolve(args[0], i) == leafAlloc
 						if errV != nil && p.Nilness(errV, last) == isNil {
 							if isLeaf {
 								leafParsed = true
@@ -424,7 +424,7 @@ func c01R4(c *Ctx) {
 					// dynamic call through the AddVerifyCallback field
 					if !x.Call.IsInvoke() && staticCallee(&x.Call) == nil && endsInField(x.Call.Value, fCallback, false) {
 						cbCalled = true
-						if len(x.Call.Args) == 1 && leafAlloc != nil && strip(x.Call.Args[0]) == leafAlloc {
+						if len(x.Call.Args) == 1 && leafAlloc != nil && p.Resolve(x.Call.Args[0], i) == leafAlloc {
 							if p.Nilness(x, last) == isNil {
 								cbOK = true
 							}
@@ -653,7 +653,7 @@ func c01R6(c *Ctx, live map[*ssa.Function]bool) {
 	var bad string
 	var badPath *Path
 	opened := 0
-	n, complete := WalkPaths(chl, PathOpts{}, func(p *Path) bool {
+	n, complete := WalkPathsInl(chl, PathOpts{}, func(p *Path) bool {
 		okBegin := false
 		p.ForEach(func(i int, ins ssa.Instruction) bool {
 			if call, ok := ins.(*ssa.Call); ok && begin[calleeID(ins)] {
